@@ -31,7 +31,9 @@ PLAIN = [b"example.org", b"a.b", b"sub.example.org", b"x-y.z", b"EXAMPLE.org", b
          b"example.ORG", b"CAMPUS.X", b"a.B", b"SITE-7"]
 REGEX = [b"/^.*@rx[0-9]+\\.net$/", b"/@up/", b"/^[a-c]+$", b"/\\.org$/", b"/@(a|b)\\.c$/", b"/^x/", b"/@.*b/", b"/example/",
          # expressions that tell an octet from its printable escape: they see the User-Name as it was sent, not as it is logged
-         b"/^.@/", b"/^..@/", b"/%/", b"/^[^%]*$/"]
+         b"/^.@/", b"/^..@/", b"/%/", b"/^[^%]*$/",
+         # expressions that contain '/' themselves, with and without the optional closing '/' (only a LAST character '/' is the delimiter)
+         b"/^host/[a-z]+\\.net$", b"/x/y/", b"/^a/b"]
 
 
 def user_variants(rng, names):
@@ -41,7 +43,8 @@ def user_variants(rng, names):
     if n.startswith(b"/") or n == b"*":
         return rng.choice([b"a@rx12.net", b"a@RX7.NET", b"a@rx.net", b"@up", b"x@UP.y", b"abc", b"abcd", b"x@a.c", b"x@B.C", b"x@c.c", b"xy", b"ax", b"u@a.b", b"u@ab",
                            b"u@example", b"EXAMPLE", b"u@foo.org", b"u@foo.orgx", b"\xffx@up\x80",
-                           b"\xe9@a.c", b"\xc3\xa9@a.c", b"\x01@up", b"%e9@a.c", b"\x7f\x80@x", b"j\xf6rg@foo.org"])
+                           b"\xe9@a.c", b"\xc3\xa9@a.c", b"\x01@up", b"%e9@a.c", b"\x7f\x80@x", b"j\xf6rg@foo.org",
+                           b"host/pc.net", b"hostmaster@rx1.net", b"host", b"x/y", b"ax/yb", b"a/b", b"a/c", b"ab"])
     local = rng.choice([b"u", b"", b"user.name", b"\xc3\xa9l", b"\xff", b"a" * rng.choice([1, 100, 240])])
     style = rng.randrange(20)
     v = {0: n, 1: n.upper(), 2: n.lower(), 3: n.swapcase(), 4: b"x" + n, 5: n + b"x", 6: n[1:], 7: n[:-1], 8: n.replace(b".", b"x"), 9: n.replace(b".", b".."),
